@@ -4,7 +4,7 @@ from hypothesis import strategies as st
 from ..runner import Shard, Violation
 from ..tools import ITER_TOOLS, TOOLS
 from ..gen import base_case, features
-from ..core import expect_return, run_async, run_sync, consumer_view, first_diff
+from ..core import expect_return, run_async, run_sync, consumer_view, first_diff, generators_closed_by_tool
 
 PROPERTY = "C01"
 LEVEL = "exploration"
@@ -54,6 +54,9 @@ def check(case):
     closers = [e for e in ba.ctx.log if e[0] == "close-raise"]
     if closers:
         raise Violation(f"C01/{tool}/close-raises", repr(closers[0]))
+    shut = generators_closed_by_tool(ba)
+    if shut:
+        raise Violation(f"C01/{tool}/closed-the-callers-generator", f"{shut}: the stdlib counterpart only advances it")
 
 
 def nontrivial(case):
@@ -82,7 +85,7 @@ def cases(draw, name, tier):
     # "the same data" may be given as list, one-shot iterator or async generator
     if name != "iter_sentinel":
         for s in case["srcs"]:
-            s["fl"] = draw(st.sampled_from(["agen", "agen", "list", "iter", "seq", "reiter", "areiter", "aproxy"]))
+            s["fl"] = draw(st.sampled_from(["agen", "agen", "list", "iter", "seq", "reiter", "areiter", "aproxy", "sgen"]))
         for s in case["srcs"]:
             if s.get("alias") is not None and case["srcs"][s["alias"]]["fl"] == "list":
                 case["srcs"][s["alias"]]["fl"] = "iter"  # aliasing is about one-shot iterators
